@@ -107,7 +107,7 @@ class C13(vlib.Check):
                    # a pool large enough to hold the same geometry with equivalent groups listed in another order
                    "opts": {"num_conf": rng.choice([20, 30]), "first": -1, "pool_multiplier": 1, "rmsd_cutoff": 0.5,
                             "max_energy_diff": None, "forcefield": "uff", "seed": rng.choice([1, 7, 42])}}
-        for k in range(2 if self.tier == "quick" else 12):
+        for k in range(4 if self.tier == "quick" else 16):
             self.count("generator-reuse")
             smis = rng.sample(SMILES, 3)
             nc = rng.choice([-1, 4])
@@ -115,8 +115,19 @@ class C13(vlib.Check):
                 # molecules of different rotatable-bond classes: the automatic target differs (200 vs 50)
                 smis = ["CCCCCCCCCCCC", rng.choice(["CCOC(=O)C", "OCC(O)CO", "CCN(CC)CC"])]
                 nc = -1
+            ff = "uff"
+            if k % 2 == 1:
+                # the same compound written in another atom order (a duplicate entry of a SMILES table), same name, any force
+                # field: everything a generator could key a per-molecule cache on except the atom order is equal
+                pairs = [("OCCN", "NCCO"), ("CC(=O)Nc1ccc(O)cc1", "Oc1ccc(NC(C)=O)cc1"), ("CCOC(=O)C", "CC(=O)OCC"), ("OCC(O)CO", "C(O)C(CO)O"),
+                         ("NCCCCC(=O)O", "OC(=O)CCCCN")]
+                a_, b_ = rng.choice(pairs)
+                smis = [a_, b_, a_] if rng.random() < 0.5 else [b_, a_]
+                ff = rng.choice(["mmff94", "mmff94s", "uff"])
+                nc = 4
+                self.count("generator-reuse:same-compound-other-atom-order:" + ff)
             yield {"t": "reuse", "smiles": smis, "opts": {"num_conf": nc, "first": rng.choice([-1, 2]), "pool_multiplier": 1,
-                                                          "rmsd_cutoff": 0.5, "max_energy_diff": None, "forcefield": "uff", "seed": 5}}
+                                                          "rmsd_cutoff": 0.5, "max_energy_diff": None, "forcefield": ff, "seed": 5}}
 
     # ------------------------------------------------------------------
     def _input(self, case):
@@ -196,7 +207,10 @@ class C13(vlib.Check):
             g = make_gen(o, get_values=False)
             for smi in case["smiles"]:
                 mol = mol_from_smiles(smi, "m")
-                a = g.generate_conformers(mol)
+                try:
+                    a = g.generate_conformers(mol)
+                except Exception as e:  # noqa: BLE001
+                    return {"key": "generator-history-dependent:raises:" + type(e).__name__, "what": "a reused generator raised %r for %s (molecules before: %s)" % (e, smi, case["smiles"])}
                 b = make_gen(o, get_values=False).generate_conformers(mol_from_smiles(smi, "m"))
                 if a.GetNumConformers() != b.GetNumConformers() or not np.allclose(coords(a), coords(b), atol=0, rtol=0):
                     return {"key": "generator-history-dependent", "what": "a reused generator returns %d conformers for %s, a fresh one %d" % (
